@@ -1,6 +1,7 @@
 package styles
 
 import (
+	"html"
 	"regexp"
 	"strings"
 )
@@ -17,6 +18,8 @@ func Clean(text string) string {
 }
 
 func ToHTML(text string) string {
+	// the result is meant to be inserted into a page as is, so neutralise any markup first
+	text = html.EscapeString(text)
 	// remove [b], [\b], [u], [\u] tags
 	text = regexp.
 		MustCompile(`(?i)\[(?:\\)?[bu]\]`).
